@@ -23,6 +23,7 @@ from .values import GHOST_SORTS, ClassV, DictObj, ListObj, PyObj, Ref, SV, TBool
 
 GROUP_CLS = "gemseo.caches.base_cache.BaseCache.Group"
 GROUP_MEMBERS = {"INPUTS": "inputs", "OUTPUTS": "outputs", "JACOBIAN": "jacobian"}
+GRAMMAR_CLS = "gemseo.core.grammars.base_grammar.BaseGrammar"
 CACHE_MODULES = ("gemseo.caches.base_full_cache", "gemseo.caches.memory_full_cache")
 
 # (class qualname, field) -> (flag field, copier(ex, value_term, type) -> value_term)
@@ -73,6 +74,44 @@ class CacheModels:
                 c = ListObj(TInt, o.n + 1, z3.Store(o.elems, o.n, n[0]))
                 c.ty = TList(TInt)
                 return st.alloc(c)
+        return NotImplemented
+
+    # ---- grammars (Mapping of element names): only their *names* matter here, kept in the model field ``_names``
+    def _grammar_names(self, ex, v):
+        if isinstance(v, Ref):
+            o = ex.st.heap[v.id]
+            if isinstance(o, PyObj) and GRAMMAR_CLS in _mro(o.cls) and "_names" in o.fields:
+                return ex.st.heap[o.fields["_names"].id]
+        return None
+
+    def pyobj_truth(self, ex, ref, o):
+        names = self._grammar_names(ex, ref)
+        return names.n != 0 if names is not None else NotImplemented
+
+    def contains(self, ex, cont, item, lineno):
+        names = self._grammar_names(ex, cont)
+        if names is None:
+            return NotImplemented
+        return SV(names.member[TStr.embed(ex.st, item)], TBool)
+
+    def to_iter(self, ex, v, lineno):
+        names = self._grammar_names(ex, v)
+        if names is None:
+            return NotImplemented
+        return ex.to_iter(ex.st.heap[v.id].fields["_names"], lineno)
+
+    def binop(self, ex, op, a, b, lineno, inplace=False):
+        from .models import DictView
+
+        names = self._grammar_names(ex, b)
+        if names is not None and isinstance(a, DictView) and a.kind == "keys" and op == "Sub":
+            return ex.models._set_binary(ex, ex.st.heap[a.ref.id], names.member, "difference")
+        return NotImplemented
+
+    def construct(self, ex, cv, args, kwargs, lineno):
+        if cv.qualname == "gemseo.core.discipline.discipline_data.DisciplineData" and not kwargs and len(args) <= 1:
+            # a dict subclass: DisciplineData(d) is a shallow copy of d
+            return ex.models.call_builtin(ex, "dict", list(args), {}, lineno)
         return NotImplemented
 
     # ---- ghost code
